@@ -89,7 +89,7 @@ int main(int argc, char **argv)
         if (SW.shard == 0 && many_vars()) { char tg[64]; snprintf(tg, sizeof tg, "access-%d", SW.shard); return sw_finish(tg); }
         int idx = 0;
         char line[300];
-        static const int FILLS[4] = {0, 0xA5, 'g', '"'};
+        static const int FILLS[6] = {0, 0xA5, 'g', '"', 0xFF, 0x180};      /* 0x180: most negative value of the width */
         for (int t0 = 0; t0 < 5; t0++)
         for (int am = 0; am < 27; am++)
         for (int hm = 0; hm < 4; hm++, idx++) {
@@ -97,13 +97,14 @@ int main(int argc, char **argv)
                 int ty[3] = {t0, (t0 + 1 + am % 2) % 5, (t0 + 3) % 5};
                 int acc[3] = {am % 3, (am / 3) % 3, am / 9};
                 int hmask = (hm & 1 ? HM_R : 0) | (hm & 2 ? HM_W : 0);
-                for (int fi = 0; fi < 4; fi++)
+                for (int fi = 0; fi < 6; fi++)
                 for (int na = 0; na < 2; na++) {
+                        if (fi >= 4 && na) continue;
                         W.wo_fill = FILLS[fi];
                         /* variable read callbacks on/off; strings filling their storage completely (no terminator inside) on/off */
                         g_rcb = (fi ^ na) & 1; W.str_full = (fi >> 1) & 1;
                         build(ty, acc, hmask, na, fi & 1);
-                        snprintf(SW.extra, sizeof SW.extra, "types=%d,%d,%d access=%d,%d,%d handlers=%d need_all=%d wo_fill=0x%02x", ty[0], ty[1], ty[2], acc[0], acc[1], acc[2], hmask, na, FILLS[fi]);
+                        snprintf(SW.extra, sizeof SW.extra, "types=%d,%d,%d access=%d,%d,%d handlers=%d need_all=%d wo_fill=0x%03x", ty[0], ty[1], ty[2], acc[0], acc[1], acc[2], hmask, na, FILLS[fi]);
                         if (run("AT+A?\n")) goto out;
                         /* the same READ (and both event paths) at every small capacity: whether the response fits must not depend on write-only contents */
                         if (na == 0 && (acc[0] == CAT_VAR_ACCESS_WRITE_ONLY || acc[1] == CAT_VAR_ACCESS_WRITE_ONLY || acc[2] == CAT_VAR_ACCESS_WRITE_ONLY)) {
@@ -114,7 +115,7 @@ int main(int argc, char **argv)
                                 g_cap = 96;
                                 build(ty, acc, hmask, na, fi & 1);
                         }
-                        if (fi == 0) {
+                        if (fi == 0 || fi >= 4) {
                                 /* large variables (hex buffer 48, string 40): READ, TEST and both event paths */
                                 SZ = SZ1; g_cap = 250; W.line_max = 420;
                                 build(ty, acc, hmask, na, na);
